@@ -13,7 +13,8 @@ EXTENDS Fractal, Json, SequencesExt
 Traces == ndJsonDeserialize("traces.ndjson")
 VARIABLES tr, l
 ASSUME TLCSet(1, {}) /\ TLCSet(2, [i \in DOMAIN Traces |-> 0])
-THome == [c \in Leaves |-> IF c \in {"c1", "c2", "l1"} THEN "S" ELSE IF c \in {"c3", "c4", "l2"} THEN "r1" ELSE "r2"]
+TRHome == [r \in Relays |-> IF r = "r3" THEN "r1" ELSE "S"]
+THome == [c \in Leaves |-> IF c \in {"c1", "c2", "l1"} THEN "S" ELSE IF c \in {"c3", "c4"} THEN "r1" ELSE IF c = "c5" THEN "r2" ELSE "r3"]
 
 Seen(e, c, t) == IF c \in DOMAIN e.got /\ t \in DOMAIN e.got[c] THEN e.got[c][t] ELSE 0
 Clean(e) == \A c \in DOMAIN e.got : \A k \in DOMAIN e.got[c] : k \in TaskIds      \* nothing unknown, nothing altered
